@@ -335,6 +335,12 @@ func buildFitgen() (string, error) {
 
 func runFitgen(bin string, args []string, out string) (string, error) {
 	os.RemoveAll(out)
+	return runFitgenInto(bin, args, out)
+}
+
+// runFitgenInto runs the command into a directory that may already hold the sources of an earlier
+// run (of another selection or SDK): what is written must not depend on them.
+func runFitgenInto(bin string, args []string, out string) (string, error) {
 	os.MkdirAll(out, 0o755)
 	cmd := exec.Command(bin, append(args, out)...)
 	b, err := cmd.CombinedOutput()
@@ -735,14 +741,16 @@ func postC19(res *RunResult) {
 				args = []string{"-hrst", "-sdk", sdk, in}
 			}
 			log1, err1 := runFitgen(bin, args, out1)
-			_, err2 := runFitgen(bin, args, out2)
+			// the repeated run goes into the directory the previous selection was generated into
+			// (the bundled workbook comes first, so later ones are smaller)
+			_, err2 := runFitgenInto(bin, args, out2)
 			runs += 2
 			if err1 != nil || err2 != nil {
 				addViolation(res, "fitgen -sdk "+sdk+" "+label, clip(log1), "fitgen did not exit successfully")
 				continue
 			}
 			if d := sameOutputs(out1, out2); d != "" {
-				addViolation(res, "fitgen -sdk "+sdk+" "+label, d, "two runs on the same input differ: "+d)
+				addViolation(res, "fitgen -sdk "+sdk+" "+label, d, "two runs on the same input differ (the second into a directory holding the sources of the previous selection): "+d)
 			}
 			if d := declaredVersion(out1, sdk); d != "" {
 				addViolation(res, "fitgen -sdk "+sdk+" "+label, d, d)
